@@ -6,9 +6,9 @@
 (* action; the action's effect advances the specification state and the    *)
 (* rules attached to the action are *evaluated* on the recorded values     *)
 (* (not used as enabling conditions), so one pass reports every broken     *)
-(* rule with its line number.                                              *)
+(* rule with its line.                                                     *)
 (*                                                                         *)
-(*   viol : set of <<line, rule, endpoint>>                                *)
+(*   viol : set of <<line, rule, endpoint, context>>                       *)
 (*   cov  : rule -> number of times its precondition held                  *)
 (*                                                                         *)
 (* The verdict is printed by the invariant Report in the state after the   *)
@@ -24,39 +24,52 @@ VARIABLES
     l,       \* next line
     run,     \* number of the current run (reset lines)
     now,     \* virtual time, microseconds
+    meta,    \* facts about the run: schedule class, latency
     eps,     \* endpoint key <<"local|remote", recv conn id>> -> endpoint record
     sendIdx, \* <<"from|to", wire conn id>> -> endpoint key of the sender
     app,     \* application endpoint name -> endpoint key
+    infl,    \* datagram id -> endpoint key of its sender (datagrams in flight)
     last,    \* scratch: facts about the immediately preceding lines (last tx, last recv per endpoint)
     viol, cov
 
-vars == <<l, run, now, eps, sendIdx, app, last, viol, cov>>
+vars == <<l, run, now, meta, eps, sendIdx, app, infl, last, viol, cov>>
 
 RuleNames == {
     "C01.NoGarbage", "C01.SegStable", "C01.SegContiguous", "C01.ReadIsPrefix", "C01.ReadWithinWritten",
-    "C04.AckExact", "C04.AckMonotone", "C04.SackExact", "C04.WindowHonest",
+    "C02.IdleWrite", "C02.IdleShutdown", "C02.NoStall", "C02.Silence", "C02.CompletesOk",
+    "C03.FlushHonest", "C03.EofOnlyAfterFin", "C03.SuccessMeansDelivered", "C03.AbortSurfaces", "C03.NoSuccessAfterAbort",
+    "C04.AckExact", "C04.AckMonotone", "C04.SackExact", "C04.WindowHonest", "C04.WithinBuffer",
     "C04.ConsumeExact", "C04.OutOfOrderIsAhead", "C04.DuplicateIsOld", "C04.AlreadyPresentIsHeld",
     "C05.WindowRespected", "C05.ZeroWindowSilence", "C05.SlowStartBound", "C05.OneSegmentAfterRto",
+    "C06.SegStable", "C06.NeverRetxAcked", "C06.Cap", "C06.CapReason", "C06.RetxAllowed", "C06.RtoNotEarly",
+    "C06.Backoff", "C06.RtoRange", "C06.FastRetx", "C06.RtoFires", "C06.TimerArmed",
+    "C07.NoSpontaneousAck", "C07.DelayedAck", "C07.ImmediateAck",
+    "C08.SilentAfterEnd", "C08.SlotFreed", "C08.EndsInTime",
+    "C10.NoPanic", "C10.NoBugError",
     "C11.EmitWellFormed", "C11.EmitConnId",
-    "C14.NeverAboveLink",
-    "C19.TxBounded",
-    "C10.NoPanic" }
+    "C14.NeverAboveLink", "C14.OrdinaryWithinProven", "C14.OneProbe",
+    "C17.FinSeq", "C17.FinAfterData", "C17.NothingAfterFin", "C17.PeerFinInOrder", "C17.FinAnswered",
+    "C17.ResetAborts", "C17.ResetNoReply", "C17.SynAckForm", "C17.SynAckRepeats",
+    "C19.TxBounded", "C19.WriteNotStuck" }
 
 EmptyFn == << >>
+NoMeta == [class |-> "", lat |-> 0]
 
 Init ==
-    /\ l = 1 /\ run = 0 /\ now = 0
-    /\ eps = EmptyFn /\ sendIdx = EmptyFn /\ app = EmptyFn
+    /\ l = 1 /\ run = 0 /\ now = 0 /\ meta = NoMeta
+    /\ eps = EmptyFn /\ sendIdx = EmptyFn /\ app = EmptyFn /\ infl = EmptyFn
     /\ last = [tx |-> [k |-> <<>>], rx |-> EmptyFn]
     /\ viol = {} /\ cov = [r \in RuleNames |-> 0]
 
-(* rs: set of <<rule name, applicable, applicable => holds>> *)
-Broken(rs)  == { x[1] : x \in { y \in rs : y[2] /\ ~y[3] } }
-Covered(rs) == { x[1] : x \in { y \in rs : y[2] } }
-Judge(k, rs) ==
-    /\ viol' = IF Cardinality(viol) >= 40 THEN viol
-               ELSE viol \cup { <<l, b, k>> : b \in Broken(rs) }
-    /\ cov' = LET c == Covered(rs) IN [r \in RuleNames |-> cov[r] + IF r \in c THEN 1 ELSE 0]
+(* rs: set of <<endpoint key, rule name, applicable, applicable => holds, context>> *)
+JudgeAll(rs) ==
+    LET broken == { x \in rs : x[3] /\ ~x[4] }
+        c == { x[2] : x \in { y \in rs : y[3] } }
+    IN  /\ viol' = IF Cardinality(viol) >= 40 THEN viol
+                   ELSE viol \cup { <<l, x[2], x[1], x[5]>> : x \in broken }
+        /\ cov' = IF c = {} THEN cov ELSE [r \in RuleNames |-> cov[r] + IF r \in c THEN 1 ELSE 0]
+JudgeCtx(k, rs, ctx) == JudgeAll({ <<k, x[1], x[2], x[3], ctx>> : x \in rs })
+Judge(k, rs) == JudgeCtx(k, rs, "")
 NoJudge == UNCHANGED <<viol, cov>>
 
 Has(r, f) == f \in DOMAIN r
@@ -64,15 +77,62 @@ Key(r) == <<r.lr, r.cid>>
 Live(k) == k \in DOMAIN eps
 
 IpUdp(cfg) == IF cfg.v6 THEN 48 ELSE 28
+IsBug(s) == Len(s) >= 3 /\ SubSeq(s, 1, 3) = "bug"
 
 ---------------------------------------------------------------------------
 Reset(r) ==
     /\ run' = run + 1 /\ now' = 0
-    /\ eps' = EmptyFn /\ sendIdx' = EmptyFn /\ app' = EmptyFn
+    /\ meta' = [class |-> IF Has(r.cfg, "info") /\ Has(r.cfg.info, "class") THEN r.cfg.info.class ELSE "",
+                lat |-> r.cfg.latency_us]
+    /\ eps' = EmptyFn /\ sendIdx' = EmptyFn /\ app' = EmptyFn /\ infl' = EmptyFn
     /\ last' = [tx |-> [k |-> <<>>], rx |-> EmptyFn]
     /\ NoJudge
 
-Tick(r) == now' = r.now /\ UNCHANGED <<run, eps, sendIdx, app, last>> /\ NoJudge
+(***************************************************************************)
+(* Time advances: every open obligation is checked against the new time.   *)
+(***************************************************************************)
+ConnInFlight(k, pk) == \E i \in DOMAIN infl : infl[i] = k \/ infl[i] = pk
+
+TickRules(k, t) ==
+    LET e == eps[k]
+        alive == ~e.ended /\ e.dying = ""
+        pk == e.cfg.peer
+        hasPeer == Live(pk)
+        p == IF hasPeer THEN eps[pk] ELSE e
+        undel == hasPeer /\ e.wr > p.rd /\ p.readPend /\ ~p.ended /\ p.dying = "" /\ alive /\ ~p.rDropped
+        quiet == /\ ~ConnInFlight(k, pk)
+                 /\ (e.tRtx < 0) /\ (p.tRtx < 0) /\ e.ackDue < 0 /\ p.ackDue < 0
+                 /\ e.tAck < 0 /\ p.tAck < 0
+        fair == meta.class \in {"fair-lossy", "loss-free"}
+    IN  { <<k, "C07.ImmediateAck", e.ackImm > 0 /\ alive /\ ~e.txPending, FALSE, "">>,
+          <<k, "C07.DelayedAck", e.ackDue >= 0 /\ alive /\ ~e.txPending, R_C07_DelayedAck(e, t), "">>,
+          <<k, "C06.FastRetx", e.frDue > 0 /\ alive /\ ~e.txPending, FALSE, "">>,
+          <<k, "C06.RtoFires", (SentUnacked(e) \/ FinUnacked(e)) /\ alive /\ e.tRtx >= 0 /\ ~e.txPending,
+                               t <= e.tRtx + Eps, "">>,
+          <<k, "C02.IdleWrite", e.idleWr > 0 /\ alive, FALSE, "">>,
+          <<k, "C02.IdleShutdown", e.idleFin > 0 /\ alive, FALSE, "">>,
+          <<k, "C17.FinAnswered", e.finAnsDue > 0 /\ alive /\ ~e.txPending, FALSE, "">>,
+          <<k, "C17.ResetAborts", e.resetAt > 0 /\ ~e.ended, FALSE, "">>,
+          <<k, "C08.SlotFreed", e.slotDue > 0, FALSE, "">>,
+          <<k, "C08.EndsInTime", ~e.ended /\ e.released >= 0,
+                                 t <= Max(e.released, e.lastRxAt) + e.cfg.inactivity + 1000000 + Eps, "">>,
+          <<k, "C03.AbortSurfaces", e.ended /\ e.pend # {}, FALSE, "">>,
+          <<k, "C19.WriteNotStuck", "write" \in e.pend /\ alive, R_C19_WriteNotStuck(e), "">>,
+          <<k, "C02.NoStall", fair /\ undel, ~quiet, IF e.pwnd = 0 THEN "pwnd=0" ELSE "">>,
+          <<k, "C02.Silence", meta.class = "loss-free" /\ undel,
+                              t - Max(e.lastWire, p.lastWire) <= 2 * meta.lat + ACK_DELAY + Eps, "">> }
+
+Tick(r) ==
+    /\ now' = r.now
+    /\ UNCHANGED <<run, meta, sendIdx, app, infl, last>>
+    /\ JudgeAll(UNION { TickRules(k, r.now) : k \in DOMAIN eps })
+    \* an obligation is reported once
+    /\ eps' = [k \in DOMAIN eps |->
+                 [eps[k] EXCEPT !.ackImm = 0, !.frDue = 0, !.idleWr = 0, !.idleFin = 0, !.finAnsDue = 0,
+                                !.slotDue = 0,
+                                !.resetAt = 0,
+                                !.ackDue = IF @ >= 0 /\ r.now > @ + Eps THEN -1 ELSE @,
+                                !.pend = IF eps[k].ended THEN {} ELSE @]]
 
 ConnNew(r) ==
     LET k == Key(r)
@@ -80,20 +140,23 @@ ConnNew(r) ==
                 max_retx |-> r.max_retx, inactivity |-> r.inactivity, wait_last_ack |-> r.wait_last_ack,
                 probe_retx |-> r.probe_retx, link_mtu |-> r.link_mtu, limit |-> r.limit,
                 incoming |-> r.incoming, cid_send |-> r.cid_send, peer |-> <<r.rl, r.cid_send>>,
-                mss0 |-> r.mss, v6 |-> FALSE]
-        e == NewEndpoint(cfg, r.seq_nr, r.rnxt, r.pwnd)
+                mss0 |-> r.mss, v6 |-> r.v6]
+        e == NewEndpoint(cfg, r.seq_nr, r.rnxt, r.pwnd, now)
     IN  /\ eps' = Put(eps, k, e)
         /\ sendIdx' = Put(sendIdx, <<r.lr, r.cid_send>>, k)
-        /\ UNCHANGED <<run, now, app, last>> /\ NoJudge
+        /\ UNCHANGED <<run, now, meta, app, infl, last>> /\ NoJudge
 
 ---------------------------------------------------------------------------
-(* A datagram handed to the network.                                       *)
+(* A datagram handed to the network by a connection endpoint.              *)
 TxEndpoint(r, h, k) ==
     LET e == eps[k]
         wnd == Wnd(h)
         isData == h.type = ST_DATA
+        isFin == h.type = ST_FIN
         s == h.seq
         sack == SackBytes(h)
+        abort == e.dying \notin {"", "ok"}
+        handshake == e.cfg.incoming /\ e.rxCount = 0
         common == {
             <<"C11.EmitConnId", TRUE, h.cid = e.cfg.cid_send>>,
             <<"C14.NeverAboveLink", TRUE, r.len <= e.cfg.link_mtu - IpUdp(e.cfg)>>,
@@ -101,64 +164,110 @@ TxEndpoint(r, h, k) ==
             <<"C04.AckMonotone", e.lastAck >= 0, R_C04_AckMonotone(e, h.ack)>>,
             <<"C04.SackExact", h.type = ST_STATE,
                                R_C04_SackExact(e, h.ack, HasSack(h), SackSet(sack))>>,
-            <<"C04.WindowHonest", TRUE, R_C04_WindowHonest(e, wnd)>> }
+            <<"C04.WindowHonest", TRUE, R_C04_WindowHonest(e, wnd)>>,
+            <<"C08.SilentAfterEnd", e.ended, FALSE>>,
+            <<"C17.ResetNoReply", e.resetAt > 0, FALSE>>,
+            <<"C07.NoSpontaneousAck", h.type = ST_STATE /\ e.state = "established" /\ e.rxCount > 0 /\ ~abort,
+                                      R_C07_NoSpontaneousAck(e, wnd)>>,
+            <<"C17.SynAckForm", handshake, h.type \in {ST_STATE, ST_FIN}>>,
+            <<"C17.SynAckRepeats", handshake /\ h.type = ST_STATE, e.txCount + 1 <= e.cfg.max_retx>> }
         data == IF ~isData THEN {} ELSE {
             <<"C01.NoGarbage", TRUE, R_NoGarbage(r.runs)>>,
             <<"C01.SegStable", Known(e, s), R_SegStable(e, s, r.runs, r.alts, r.amb, r.plen)>>,
+            <<"C06.SegStable", Known(e, s), R_SegStable(e, s, r.runs, r.alts, r.amb, r.plen)>>,
             <<"C01.SegContiguous", ~Known(e, s) /\ s = e.nxt,
-                                   R_SegContiguous(e, s, r.runs, r.alts, r.amb, r.plen)>> }
+                                   R_SegContiguous(e, s, r.runs, r.alts, r.amb, r.plen)>>,
+            <<"C06.NeverRetxAcked", IsRetx(e, s), R_C06_NeverRetxAcked(e, s)>>,
+            <<"C17.NothingAfterFin", e.fin.seq >= 0, R_C17_NothingAfterFin(e, s)>> }
+        fin == IF ~isFin THEN {} ELSE {
+            <<"C17.FinSeq", TRUE, R_C17_FinSeq(e, s, abort)>>,
+            <<"C17.FinAfterData", ~abort /\ e.peerFin < 0 /\ e.fin.seq < 0, R_C17_FinAfterData(e)>> }
         pos == IF isData /\ Len(r.runs) >= 1 THEN r.runs[1][1] ELSE -1
         first == isData /\ (~Known(e, s) \/ IsSplit(e, s, r.plen))
-        e1 == IF isData THEN TxData(e, s, pos, r.plen, now) ELSE e
-        e2 == Emitted(e1, h.ack, wnd)
-    IN  /\ Judge(k, common \cup data)
+        e1 == IF isData THEN TxData(e, s, pos, r.plen, now)
+              ELSE IF isFin THEN TxFin(e, s, abort, now) ELSE e
+        post == IF ~isData THEN {} ELSE { <<"C06.Cap", TRUE, R_C06_Cap(e1, s)>> }
+        pk == e.cfg.peer
+        splitDel == isData /\ IsSplit(e, s, r.plen) /\ Live(pk) /\ D(s, eps[pk].rnxt) <= 0
+        e2 == [Emitted(e1, h.ack, wnd, now) EXCEPT !.splitDelivered = @ \/ splitDel,
+                                                   !.idleWr = IF isData THEN 0 ELSE @]
+    IN  /\ Judge(k, common \cup data \cup fin \cup post)
         /\ eps' = [eps EXCEPT ![k] = e2]
+        /\ infl' = IF r.fate \in {"deliver", "dup"} THEN Put(infl, r.id, k) ELSE infl
         /\ last' = [last EXCEPT !.tx = [k |-> k, type |-> h.type, seq |-> s, first |-> first,
                                         plen |-> r.plen, line |-> l]]
 
 Tx(r) ==
     LET h == ParseMessage(r.hdr, r.len)
         sk == IF h.ok THEN <<r.ft, h.cid>> ELSE <<>>
-    IN  /\ UNCHANGED <<run, now, sendIdx, app>>
+        raw == Has(r, "raw")
+    IN  /\ UNCHANGED <<run, now, meta, sendIdx, app>>
         /\ IF ~h.ok
            THEN \* only library sockets are held to C11; the scripted raw peer may emit anything
-                /\ IF Has(r, "raw") THEN NoJudge
-                   ELSE Judge(<<r.ft, -1>>, { <<"C11.EmitWellFormed", TRUE, FALSE>> })
-                /\ UNCHANGED <<eps, last>>
-           ELSE IF sk \in DOMAIN sendIdx /\ ~Has(r, "raw")
+                /\ (IF raw THEN NoJudge ELSE Judge(<<r.ft, -1>>, { <<"C11.EmitWellFormed", TRUE, FALSE>> }))
+                /\ UNCHANGED <<eps, last, infl>>
+           ELSE IF sk \in DOMAIN sendIdx /\ ~raw
            THEN TxEndpoint(r, h, sendIdx[sk])
-           ELSE /\ (IF Has(r, "raw") THEN NoJudge
-                    ELSE Judge(<<r.ft, h.cid>>, { <<"C11.EmitWellFormed", TRUE, TRUE>> }))
+           ELSE /\ (IF raw THEN NoJudge ELSE Judge(<<r.ft, h.cid>>, { <<"C11.EmitWellFormed", TRUE, TRUE>> }))
+                /\ infl' = IF r.fate \in {"deliver", "dup"} THEN Put(infl, r.id, <<r.ft, h.cid>>) ELSE infl
                 /\ UNCHANGED <<eps, last>>
 
-(* The hook after a data / FIN transmission: flow-control rules.           *)
+TxFail(r) ==   \* transport back-pressure: the endpoint could not hand the datagram over
+    /\ UNCHANGED <<run, now, meta, sendIdx, app, infl, last, eps>> /\ NoJudge
+
+Dup(r) ==
+    /\ infl' = IF r.of \in DOMAIN infl THEN Put(infl, r.id, infl[r.of]) ELSE infl
+    /\ UNCHANGED <<run, now, meta, eps, sendIdx, app, last>> /\ NoJudge
+
+Deliver(r) ==
+    /\ infl' = Del(infl, {r.id})
+    /\ UNCHANGED <<run, now, meta, eps, sendIdx, app, last>> /\ NoJudge
+
+(* The hook after a data / FIN transmission: flow-control and retransmission rules. *)
 Xmit(r) ==
     LET k == Key(r) IN
-    /\ UNCHANGED <<run, now, sendIdx, app, last>>
+    /\ UNCHANGED <<run, now, meta, sendIdx, app, infl, last>>
     /\ IF ~Live(k) THEN NoJudge /\ UNCHANGED eps
        ELSE LET e == eps[k]
                 isFin == r.tag = "fin"
                 first == ~isFin /\ last.tx.k = k /\ last.tx.seq = r.seq /\ last.tx.first
-                rules == IF isFin THEN {} ELSE {
+                retx == ~isFin /\ ~first
+                isRto == r.tag = "rto"
+                ordinary == ~r.probe
+                rules == IF isFin THEN { <<"C06.RtoRange", TRUE, R_C06_RtoRange(r.rto)>> } ELSE {
                     <<"C05.WindowRespected", first, R_C05_WindowRespected(e, r.recovering)>>,
                     <<"C05.ZeroWindowSilence", first, R_C05_ZeroWindowSilence(e, r.recovering)>>,
                     <<"C05.SlowStartBound", first, R_C05_SlowStartBound(e, r.mss)>>,
-                    <<"C05.OneSegmentAfterRto", e.rtoMode, R_C05_OneSegmentAfterRto(e, r.seq, r.tag)>> }
-                retx == ~isFin /\ ~first
+                    <<"C05.OneSegmentAfterRto", e.rtoMode, R_C05_OneSegmentAfterRto(e, r.tag)>>,
+                    <<"C06.RetxAllowed", retx, R_C06_RetxAllowed(e, r.seq, r.tag)>>,
+                    <<"C06.RtoNotEarly", retx /\ isRto, R_C06_RtoNotEarly(e, now)>>,
+                    <<"C06.Backoff", retx /\ isRto /\ ordinary /\ e.rtoMode, R_C06_Backoff(e, r.rto)>>,
+                    <<"C06.RtoRange", TRUE, R_C06_RtoRange(r.rto)>>,
+                    \* C14 "ordinary segments never exceed the largest payload size already proven deliverable (or the protocol minimum)"
+                    <<"C14.OrdinaryWithinProven", first /\ ordinary, r.len <= OwnMss(e)>>,
+                    \* C14 "at most one oversized probe is outstanding and it is the newest segment"
+                    <<"C14.OneProbe", first, e.probeOut < 0 \/ e.probeOut = r.seq>> }
                 e1 == [e EXCEPT
-                        !.lossSeen = @ \/ retx \/ r.recovering \/ r.tag = "rto",
-                        !.rtoMode = IF r.tag = "rto" /\ retx THEN TRUE ELSE @,
-                        !.rtoSeq = IF r.tag = "rto" /\ retx THEN r.seq ELSE @,
+                        !.lossSeen = @ \/ retx \/ r.recovering \/ isRto,
+                        !.rtoMode = IF isRto /\ retx THEN TRUE ELSE @,
+                        !.rtoLast = IF isRto /\ retx /\ ordinary THEN r.rto ELSE @,
+                        !.rtxBase = IF isRto THEN now ELSE @,
+                        !.recPoint = IF isRto /\ retx THEN Nx(e.nxt, SeqMod - 1) ELSE @,
+                        !.frDue = IF retx \/ r.recovering THEN 0 ELSE @,
+                        !.probeOut = IF first /\ ~ordinary THEN r.seq ELSE @,
                         \* after a timeout every other outstanding segment is presumed lost (go-back-N)
-                        !.segs = IF r.tag = "rto" /\ retx
+                        !.segs = IF isRto /\ retx
                                  THEN [s \in DOMAIN @ |->
                                         IF s # r.seq /\ @[s].counted
                                         THEN [@[s] EXCEPT !.lost = TRUE, !.counted = FALSE] ELSE @[s]]
                                  ELSE IF r.seq \in DOMAIN @ THEN [@ EXCEPT ![r.seq].probe = r.probe] ELSE @,
-                        !.flight = IF r.tag = "rto" /\ retx
+                        !.flight = IF isRto /\ retx
                                    THEN (IF r.seq \in DOMAIN e.segs THEN e.segs[r.seq].len ELSE 0)
                                    ELSE @ ]
-            IN  Judge(k, rules) /\ eps' = [eps EXCEPT ![k] = e1]
+                \* known finding: the implementation keeps the retransmission timer running for data that is
+                \* segmented but was never transmitted; a timeout then comes early for what is sent meanwhile
+                ctx == "tag=" \o r.tag \o (IF isRto /\ e.idleArmed >= 0 /\ e.idleArmed = e.tRtx THEN ",idle-armed" ELSE "")
+            IN  JudgeCtx(k, rules, ctx) /\ eps' = [eps EXCEPT ![k] = e1]
 
 ---------------------------------------------------------------------------
 (* The connection task processes one packet (entry of process_incoming_message). *)
@@ -171,99 +280,206 @@ ActsOn(e, r) ==   \* the packets whose acknowledgement fields the connection hon
 
 Recv(r) ==
     LET k == Key(r) IN
-    /\ UNCHANGED <<run, now, sendIdx, app>> /\ NoJudge
+    /\ UNCHANGED <<run, now, meta, sendIdx, app, infl>> /\ NoJudge
     /\ IF ~Live(k) THEN UNCHANGED <<eps, last>>
        ELSE LET e == eps[k]
                 e1 == IF ActsOn(e, r)
-                      THEN RecvAck(e, r.ack, r.wnd, IF r.has_sack THEN SackSet(r.sack) ELSE {}, r.t = ST_STATE)
+                      THEN RecvAck(e, r.ack, r.wnd, r.has_sack, IF r.has_sack THEN SackSet(r.sack) ELSE {},
+                                   r.t = ST_STATE, now, l)
                       ELSE e
-            IN  /\ eps' = [eps EXCEPT ![k] = [e1 EXCEPT !.state = r.state]]
+                e2 == [e1 EXCEPT !.state = r.state, !.stim = TRUE, !.rxCount = @ + 1, !.lastRxAt = now,
+                                 !.lastWire = now,
+                                 !.resetAt = IF r.t = ST_RESET THEN l ELSE @]
+            IN  /\ eps' = [eps EXCEPT ![k] = e2]
                 /\ last' = [last EXCEPT !.rx = Put(@, k, [seq |-> r.seq, plen |-> r.plen, t |-> r.t, line |-> l])]
 
 (* Disposition of a DATA / FIN packet by the receive side. *)
 Disp(r) ==
     LET k == Key(r) IN
-    /\ UNCHANGED <<run, now, sendIdx, app, last>>
+    /\ UNCHANGED <<run, now, meta, sendIdx, app, infl, last>>
     /\ IF ~Live(k) THEN NoJudge /\ UNCHANGED eps
        ELSE LET e == eps[k]
                 s == r.seq
                 plen == IF k \in DOMAIN last.rx /\ last.rx[k].seq = s THEN last.rx[k].plen ELSE 0
                 w == r.what
+                e1 == CASE w = "consumed" /\ s = Nx(e.rnxt, 1) -> DispConsumed(e, s, plen, now, l)
+                        [] w = "out_of_order" /\ s \notin DOMAIN e.held /\ D(s, Nx(e.rnxt, 1)) > 0 -> DispOutOfOrder(e, s, plen, now, l)
+                        [] w \in {"duplicate", "already_present"} -> DispDuplicate(e, now, l)
+                        [] w = "fin_accepted" -> DispFinAccepted(e, s, now, l)
+                        [] w = "fin_repeat" -> DispDuplicate(e, now, l)
+                        [] OTHER -> e
                 rules == {
                     <<"C04.ConsumeExact", w = "consumed", R_C04_ConsumeExact(e, s, r.n, r.bytes, plen)>>,
                     <<"C04.OutOfOrderIsAhead", w = "out_of_order", R_C04_OutOfOrderIsAhead(e, s)>>,
                     <<"C04.DuplicateIsOld", w = "duplicate", R_C04_DuplicateIsOld(e, s)>>,
-                    <<"C04.AlreadyPresentIsHeld", w = "already_present", R_C04_AlreadyPresentIsHeld(e, s)>> }
-                e1 == CASE w = "consumed" /\ s = Nx(e.rnxt, 1) -> DispConsumed(e, s, plen)
-                        [] w = "out_of_order" /\ s \notin DOMAIN e.held /\ D(s, Nx(e.rnxt, 1)) > 0 -> DispOutOfOrder(e, s, plen)
-                        [] w = "fin_accepted" -> DispFinAccepted(e, s)
-                        [] OTHER -> e
+                    <<"C04.AlreadyPresentIsHeld", w = "already_present", R_C04_AlreadyPresentIsHeld(e, s)>>,
+                    <<"C04.WithinBuffer", w \in {"consumed", "out_of_order"}, R_C04_WithinBuffer(e1)>>,
+                    <<"C17.PeerFinInOrder", w = "fin_accepted", R_C17_PeerFinInOrder(e, s)>> }
             IN  Judge(k, rules) /\ eps' = [eps EXCEPT ![k] = e1]
 
 ---------------------------------------------------------------------------
-(* Application call returns.                                               *)
+(* Application calls.                                                      *)
+Call(r) ==
+    /\ UNCHANGED <<run, now, meta, sendIdx, app, infl, last>> /\ NoJudge
+    /\ IF r.ep \in DOMAIN app /\ Live(app[r.ep]) /\ r.op = "shutdown"
+       THEN eps' = [eps EXCEPT ![app[r.ep]].shutAt = r.arg, ![app[r.ep]].stim = TRUE]
+       ELSE UNCHANGED eps
+
+Pend(r) ==
+    /\ UNCHANGED <<run, now, meta, sendIdx, app, infl, last>> /\ NoJudge
+    /\ IF r.ep \in DOMAIN app /\ Live(app[r.ep])
+       THEN LET k == app[r.ep] e == eps[k] IN
+            eps' = [eps EXCEPT ![k] = [e EXCEPT
+                      !.pend = @ \cup {r.op},
+                      !.readPend = IF r.op = "read" THEN TRUE ELSE @,
+                      \* C02 "a shutdown on an idle connection emits its FIN at once"
+                      !.idleFin = IF r.op = "shutdown" /\ Idle(e) /\ ~e.txPending THEN l ELSE @]]
+       ELSE UNCHANGED eps
+
 Ret(r) ==
-    /\ UNCHANGED <<run, now, sendIdx, last>>
+    /\ UNCHANGED <<run, now, meta, sendIdx, infl, last>>
     /\ IF r.op \in {"connect", "accept"}
        THEN /\ app' = IF r.res = "ok" THEN Put(app, r.ep, <<r.lr, r.cid>>) ELSE app
             /\ UNCHANGED eps /\ NoJudge
        ELSE IF r.ep \notin DOMAIN app \/ ~Live(app[r.ep]) THEN UNCHANGED <<app, eps>> /\ NoJudge
        ELSE LET k == app[r.ep]
-                e == eps[k]
+                e0 == eps[k]
+                e == [e0 EXCEPT !.pend = @ \ {r.op}, !.readPend = IF r.op = "read" THEN FALSE ELSE @]
                 pk == e.cfg.peer
+                hasPeer == Live(pk)
+                fair == meta.class \in {"fair-lossy", "loss-free"}
+                okc == { <<"C02.CompletesOk", fair /\ r.op \in {"read", "write", "flush", "shutdown"}, r.res # "err">> }
+                dctx == IF e.deathCtx # "" THEN e.deathCtx ELSE IF hasPeer /\ eps[pk].deathCtx # "" THEN eps[pk].deathCtx ELSE ""
             IN  /\ UNCHANGED app
                 /\ CASE r.op = "read" /\ r.res = "ok" ->
-                          /\ Judge(k, {
+                          /\ JudgeCtx(k, okc \cup {
                                <<"C01.ReadIsPrefix", TRUE, R_C01_ReadIsPrefix(e, r.runs, r.n)>>,
-                               <<"C01.ReadWithinWritten", Live(pk), R_C01_ReadWithinWritten(e, r.n, eps[pk].wr)>> })
-                          /\ eps' = [eps EXCEPT ![k] = AppRead(e, r.n, r.n)]
+                               <<"C01.ReadWithinWritten", hasPeer, R_C01_ReadWithinWritten(e, r.n, eps[pk].wr)>> },
+                               IF hasPeer /\ eps[pk].splitDelivered THEN "split-of-delivered-probe" ELSE "")
+                          /\ eps' = [eps EXCEPT ![k] = AppRead(e, r.n, r.want)]
+                     [] r.op = "read" /\ r.res \in {"eof", "err"} ->
+                          /\ JudgeCtx(k, okc \cup {
+                               <<"C03.EofOnlyAfterFin", r.res = "eof", R_C03_EofOnlyAfterFin(e)>>,
+                               <<"C03.SuccessMeansDelivered", hasPeer, R_C03_SuccessMeansDelivered(e, eps[pk].flushMark)>> }, dctx)
+                          /\ eps' = [eps EXCEPT ![k] = e]
                      [] r.op = "write" /\ r.res = "ok" ->
-                          LET e1 == AppWrite(e, r.n) IN
-                          /\ Judge(k, { <<"C19.TxBounded", TRUE, R_C19_TxBounded(e1)>> })
+                          LET e1 == AppWrite(e, r.n, l) IN
+                          /\ Judge(k, okc \cup {
+                               <<"C19.TxBounded", TRUE, R_C19_TxBounded(e1)>>,
+                               <<"C03.NoSuccessAfterAbort", AbortedWithError(e), r.n = 0>> })
                           /\ eps' = [eps EXCEPT ![k] = e1]
-                     [] OTHER -> UNCHANGED eps /\ NoJudge
+                     [] r.op \in {"flush", "shutdown"} /\ r.res = "ok" ->
+                          /\ Judge(k, okc \cup { <<"C03.FlushHonest", TRUE, R_C03_FlushHonest(e, r.pos)>> })
+                          /\ eps' = [eps EXCEPT ![k] = [e EXCEPT !.flushMark = Max(@, r.pos),
+                                                                 !.released = IF r.op = "shutdown" /\ @ < 0 THEN now ELSE @]]
+                     [] r.op = "drop_r" ->
+                          /\ Judge(k, {})
+                          /\ eps' = [eps EXCEPT ![k] = [e EXCEPT !.rDropped = TRUE, !.stim = TRUE,
+                                                                 !.released = IF e.wDropped /\ @ < 0 THEN now ELSE @]]
+                     [] r.op = "drop_w" ->
+                          /\ Judge(k, {})
+                          /\ eps' = [eps EXCEPT ![k] = [e EXCEPT !.wDropped = TRUE, !.stim = TRUE,
+                                                                 !.released = IF e.rDropped /\ @ < 0 THEN now ELSE @]]
+                     [] OTHER -> JudgeCtx(k, okc, dctx) /\ eps' = [eps EXCEPT ![k] = e]
+
+WaitTimeout(r) ==
+    /\ UNCHANGED <<run, now, meta, eps, sendIdx, app, infl, last>>
+    /\ Judge(<<"", -1>>, { <<"C02.CompletesOk", meta.class \in {"fair-lossy", "loss-free"}, FALSE>> })
 
 Poll(r) ==
     LET k == Key(r) IN
-    /\ UNCHANGED <<run, now, sendIdx, app, last>> /\ NoJudge
-    /\ IF ~Live(k) THEN UNCHANGED eps
-       ELSE eps' = [eps EXCEPT ![k].state = r.state]
+    /\ UNCHANGED <<run, now, meta, sendIdx, app, infl, last>>
+    /\ IF ~Live(k) THEN UNCHANGED eps /\ NoJudge
+       ELSE LET e == eps[k] IN
+            /\ Judge(k, {
+                  \* the retransmission timer runs while transmitted data or a FIN awaits acknowledgement
+                  <<"C06.TimerArmed", (SentUnacked(e) \/ FinUnacked(e)) /\ e.dying = "" /\ r.state # "closed",
+                                      r.t_rtx >= 0>>,
+                  <<"C06.RtoRange", TRUE, R_C06_RtoRange(r.rto)>> })
+            /\ eps' = [eps EXCEPT ![k] = [e EXCEPT !.state = r.state, !.tRtx = r.t_rtx, !.tAck = r.t_ack,
+                                                   !.idleArmed = IF ~SentUnacked(e) /\ ~FinUnacked(e) THEN r.t_rtx
+                                                                 ELSE IF @ = r.t_rtx THEN @ ELSE -1,
+                                                   !.ringCap = r.ring_cap, !.txPending = r.pending]]
 
 Dying(r) ==
     LET k == Key(r) IN
-    /\ UNCHANGED <<run, now, sendIdx, app, last>> /\ NoJudge
-    /\ IF ~Live(k) THEN UNCHANGED eps ELSE eps' = [eps EXCEPT ![k].dying = r.result]
+    /\ UNCHANGED <<run, now, meta, sendIdx, app, infl, last>>
+    /\ IF ~Live(k) THEN UNCHANGED eps /\ NoJudge
+       ELSE /\ Judge(k, { <<"C10.NoBugError", TRUE, ~IsBug(r.result)>> })
+            /\ eps' = [eps EXCEPT ![k].dying = r.result,
+                                  \* known finding: the inactivity abort fires while a retransmission is still
+                                  \* scheduled (RTO back-off can exceed the inactivity timeout)
+                                  ![k].deathCtx = IF r.result = "remote was inactive for too long"
+                                                     /\ SentUnacked(eps[k]) /\ eps[k].tRtx > now
+                                                  THEN "inactivity-before-rto" ELSE "",
+                                  ![k].released = IF @ < 0 THEN now ELSE @]
+
+EndOf(k, result) ==
+    LET e == eps[k] IN
+    /\ Judge(k, {
+          \* C17 "a RESET aborts the connection at once, with an error unless the close handshake was already answered"
+          <<"C17.ResetAborts", e.resetAt > 0, result # "ok" \/ e.state = "last-ack">>,
+          \* C06: the retransmission limit is a legitimate reason to fail only when it was reached
+          <<"C06.CapReason", result = "max number of retransmissions reached",
+                             \E s \in DOMAIN e.segs : e.segs[s].cnt >= e.cfg.max_retx + 1>> })
+    /\ eps' = [eps EXCEPT ![k] = [e EXCEPT !.ended = TRUE, !.endedAt = now, !.result = result,
+                                           !.slotDue = l, !.resetAt = 0,
+                                           !.ackImm = 0, !.ackDue = -1, !.frDue = 0,
+                                           !.idleWr = 0, !.idleFin = 0, !.finAnsDue = 0]]
 
 End(r) ==
     LET k == Key(r) IN
-    /\ UNCHANGED <<run, now, sendIdx, app, last>> /\ NoJudge
-    /\ IF ~Live(k) THEN UNCHANGED eps
-       ELSE eps' = [eps EXCEPT ![k].ended = TRUE, ![k].result = r.result]
+    /\ UNCHANGED <<run, now, meta, sendIdx, app, infl, last>>
+    /\ IF ~Live(k) THEN UNCHANGED eps /\ NoJudge ELSE EndOf(k, r.result)
+
+VsockDrop(r) ==   \* the task object is gone; if it never completed it was cancelled
+    LET k == Key(r) IN
+    /\ UNCHANGED <<run, now, meta, sendIdx, app, infl, last>>
+    /\ IF ~Live(k) \/ eps[k].ended THEN UNCHANGED eps /\ NoJudge ELSE EndOf(k, "cancelled")
+
+Tab(r) ==
+    /\ UNCHANGED <<run, now, meta, sendIdx, app, infl, last>> /\ NoJudge
+    /\ IF r.what \in {"stream_remove", "stream_remove_dead"} /\ Has(r, "lr") /\ Live(Key(r))
+       THEN eps' = [eps EXCEPT ![Key(r)].slotDue = 0]
+       ELSE UNCHANGED eps
 
 Panic(r) ==
-    /\ UNCHANGED <<run, now, eps, sendIdx, app, last>>
+    /\ UNCHANGED <<run, now, meta, eps, sendIdx, app, infl, last>>
     /\ Judge(<<"", -1>>, { <<"C10.NoPanic", TRUE, FALSE>> })
 
-Skip == UNCHANGED <<run, now, eps, sendIdx, app, last>> /\ NoJudge
+Skip == UNCHANGED <<run, now, meta, eps, sendIdx, app, infl, last>> /\ NoJudge
 
 ---------------------------------------------------------------------------
 Next ==
     /\ l <= N
     /\ l' = l + 1
     /\ LET r == Rec[l] IN
-       CASE r.ev = "tick"     -> Tick(r)
-         [] r.ev = "reset"    -> Reset(r)
-         [] r.ev = "tx"       -> Tx(r)
-         [] r.ev = "xmit"     -> Xmit(r)
-         [] r.ev = "recv"     -> Recv(r)
-         [] r.ev = "disp"     -> Disp(r)
-         [] r.ev = "ret"      -> Ret(r)
-         [] r.ev = "poll"     -> Poll(r)
-         [] r.ev = "conn_new" -> ConnNew(r)
-         [] r.ev = "dying"    -> Dying(r)
-         [] r.ev = "end"      -> End(r)
-         [] r.ev = "panic"    -> Panic(r)
-         [] OTHER             -> Skip
+       CASE r.ev = "tick"      -> Tick(r)
+         [] r.ev = "reset"     -> Reset(r)
+         [] r.ev = "tx"        -> Tx(r)
+         [] r.ev = "txfail"    -> TxFail(r)
+         [] r.ev = "dup"       -> Dup(r)
+         [] r.ev = "deliver"   -> Deliver(r)
+         [] r.ev = "xmit"      -> Xmit(r)
+         [] r.ev = "recv"      -> Recv(r)
+         [] r.ev = "disp"      -> Disp(r)
+         [] r.ev = "call"      -> Call(r)
+         [] r.ev = "pend"      -> Pend(r)
+         [] r.ev = "ret"       -> Ret(r)
+         [] r.ev = "wait_timeout" -> WaitTimeout(r)
+         [] r.ev = "poll"      -> Poll(r)
+         [] r.ev = "probe_pop" ->
+              (LET k == Key(r) IN
+               /\ UNCHANGED <<run, now, meta, sendIdx, app, infl, last>> /\ NoJudge
+               /\ IF ~Live(k) THEN UNCHANGED eps
+                  ELSE eps' = [eps EXCEPT ![k] = ProbePopped(@, r.seq, r.why = "expired")])
+         [] r.ev = "conn_new"  -> ConnNew(r)
+         [] r.ev = "dying"     -> Dying(r)
+         [] r.ev = "end"       -> End(r)
+         [] r.ev = "vsock_drop" -> VsockDrop(r)
+         [] r.ev = "tab"       -> Tab(r)
+         [] r.ev = "panic"     -> Panic(r)
+         [] OTHER              -> Skip
 
 Spec == Init /\ [][Next]_vars
 
@@ -272,7 +488,7 @@ Spec == Init /\ [][Next]_vars
 Report ==
     (l = N + 1) =>
         PrintT(<<"VERDICT", ToJson([lines |-> N, runs |-> run,
-                                    viol |-> { [line |-> v[1], rule |-> v[2], ep |-> ToString(v[3])] : v \in viol },
+                                    viol |-> { [line |-> v[1], rule |-> v[2], ep |-> ToString(v[3]), ctx |-> v[4]] : v \in viol },
                                     cov |-> cov])>>)
 
 TraceAccepted ==
